@@ -45,6 +45,8 @@ impl Decode for SessionId {
 
 impl From<StreamId> for SessionId {
     fn from(value: StreamId) -> Self {
-        Self(value.index())
+        // The session id is the stream id of the CONNECT request, not the index of that stream
+        // among the client-initiated bidirectional streams.
+        Self(value.into_inner())
     }
 }
